@@ -78,27 +78,48 @@ Qed.
 (* length as N *)
 Definition nlen {A} (l : list A) : N := N.of_nat (length l).
 
-(* Python slicing with non-negative bounds that are known to be in range *)
-Definition take {A} (n : N) (l : list A) : list A := firstn (N.to_nat n) l.
-Definition drop {A} (n : N) (l : list A) : list A := skipn (N.to_nat n) l.
+(* Python slicing l[:n] / l[n:] for n >= 0.  The bound is compared as a binary number first so
+   that absurd lengths claimed by a header never get converted to unary. *)
+Definition take {A} (n : N) (l : list A) : list A :=
+  if nlen l <=? n then l else firstn (N.to_nat n) l.
+Definition drop {A} (n : N) (l : list A) : list A :=
+  if nlen l <=? n then [] else skipn (N.to_nat n) l.
+
+Lemma take_firstn {A} n (l : list A) : take n l = firstn (N.to_nat n) l.
+Proof.
+  unfold take, nlen. destruct (N.leb_spec (N.of_nat (length l)) n); [|reflexivity].
+  symmetry. apply firstn_all2. lia.
+Qed.
+
+Lemma drop_skipn {A} n (l : list A) : drop n l = skipn (N.to_nat n) l.
+Proof.
+  unfold drop, nlen. destruct (N.leb_spec (N.of_nat (length l)) n); [|reflexivity].
+  symmetry. apply skipn_all2. lia.
+Qed.
 
 Lemma take_drop {A} n (l : list A) : take n l ++ drop n l = l.
-Proof. apply firstn_skipn. Qed.
+Proof. rewrite take_firstn, drop_skipn. apply firstn_skipn. Qed.
 
 Lemma nlen_app {A} (a b : list A) : nlen (a ++ b) = nlen a + nlen b.
 Proof. unfold nlen. rewrite app_length. lia. Qed.
 
 Lemma take_app_exact {A} (a b : list A) : take (nlen a) (a ++ b) = a.
 Proof.
-  unfold take, nlen. rewrite Nat2N.id.
+  rewrite take_firstn. unfold nlen. rewrite Nat2N.id.
   rewrite firstn_app, Nat.sub_diag, firstn_all. simpl. apply app_nil_r.
 Qed.
 
 Lemma drop_app_exact {A} (a b : list A) : drop (nlen a) (a ++ b) = b.
 Proof.
-  unfold drop, nlen. rewrite Nat2N.id.
+  rewrite drop_skipn. unfold nlen. rewrite Nat2N.id.
   rewrite skipn_app, Nat.sub_diag, skipn_all. reflexivity.
 Qed.
+
+Lemma drop_0 {A} (l : list A) : drop 0 l = l.
+Proof. rewrite drop_skipn. reflexivity. Qed.
+
+Lemma nlen_drop {A} n (l : list A) : nlen (drop n l) = nlen l - n.
+Proof. rewrite drop_skipn. unfold nlen. rewrite skipn_length. lia. Qed.
 
 (* big-endian value of an octet string, base 256 *)
 Definition be_val (bs : list byte) : N := fold_left (fun acc b => acc * 256 + b2n b) bs 0.
